@@ -348,6 +348,20 @@ func buildLibOpts() []libOpts {
 	return out
 }
 
+// constStream is an endless deterministic entropy source for batch verification.
+type constStream struct {
+	b byte
+	n int
+}
+
+func (c *constStream) Read(p []byte) (int, error) {
+	for i := range p {
+		c.n++
+		p[i] = c.b ^ byte(c.n*131>>3)
+	}
+	return len(p), nil
+}
+
 // call runs f and reports (result, panicked).
 func call(f func() bool) (ok bool, panicked bool) {
 	defer func() {
@@ -891,8 +905,169 @@ func run(c *mc.Ctx) {
 		for j, va := range vs {
 			run("collision/revisit", honA, epk, sigs[j], va)
 		}
+		// one BatchVerifier and the one shared expanded key: [valid; a signature of the neighbouring variant (invalid);
+		// valid again] forces the serial fallback on the shared key; then Reset and a batch of one valid entry per
+		// variant; then Reset and the first batch again; finally the key once more on its own.
+		type bent struct {
+			sig []byte
+			va  *variant
+		}
+		batch := func(what string, bv *ed.BatchVerifier, es []bent) {
+			var want []bool
+			allWant := true
+			for _, e := range es {
+				exp, _ := refed.Analyse(honA.enc, m, e.sig, e.va.v).Verdict(refed.PresetDefault)
+				want = append(want, exp)
+				allWant = allWant && exp
+				bv.AddExpandedWithOptions(epk, m, e.sig, &ed.Options{Hash: e.va.hash, Context: string(e.va.v.Context)})
+			}
+			all, each := bv.Verify(&constStream{b: byte(i)})
+			w.EvalN("collision/batch-shared-expanded-key", int64(len(es)), true)
+			if all != allWant || fmt.Sprint(each) != fmt.Sprint(want) {
+				w.Fail("BatchVerifier.Verify/shared-expanded-key", fmt.Sprintf("%s: all=%v each=%v, predicate says all=%v each=%v (key %x, message %x, context %x)", what, all, each, allWant, want, honA.enc, m, ctx),
+					map[string]string{"public_key": mc.Hex(honA.enc), "message": mc.Hex(m), "context": mc.Hex(ctx)})
+			}
+		}
+		if epk != nil {
+			bv := ed.NewBatchVerifier()
+			first := []bent{{sigs[0], vs[0]}, {sigs[1], vs[0]}, {sigs[0], vs[0]}, {sigs[2], vs[2]}}
+			batch("batch [valid, invalid, valid, valid]", bv, first)
+			bv.Reset()
+			batch("after Reset: one valid entry per variant", bv, []bent{{sigs[0], vs[0]}, {sigs[1], vs[1]}, {sigs[2], vs[2]}, {sigs[3], vs[3]}})
+			bv.Reset()
+			batch("after second Reset: the first batch again", bv, first)
+			run("collision/revisit", honA, epk, sigs[0], vs[0])
+		}
 		if i == 0 {
 			w.Sample(map[string]string{"sub": "collisions", "context": mc.Hex(ctx), "message": mc.Hex(m), "order": vs[0].name + " -> " + vs[1].name})
+		}
+	})
+
+	// ---- sub-space "caller-memory": arguments are sub-slices of ONE caller buffer with spare capacity ----
+	// public key, message and signature live in one arena between guard bytes; every slice handed to the library has
+	// capacity up to the end of the arena.  Results must equal the reference verdict (= what tight copies give), the
+	// arena must be bit-identical after every call, and an ExpandedPublicKey must not keep a reference to caller
+	// memory (the key buffer is overwritten afterwards).  Shapes: separate regions; message aliasing the R half of the
+	// signature; message aliasing the public key; (ph) message aliasing the whole signature.
+	type memCase struct {
+		a      *ent
+		va     *variant
+		m, sig []byte
+		alias  int // 0 separate, 1 m = sig[:32], 2 m = pk, 3 m = sig[:64]
+	}
+	var mem []memCase
+	{
+		n := c.Pick(64, 320)
+		stride := len(pairs) / n
+		if stride < 1 {
+			stride = 1
+		}
+		for i := 0; i < n && i*stride < len(pairs); i++ {
+			g := &pairs[i*stride]
+			mem = append(mem, memCase{g.a, g.va, g.m, append(append([]byte{}, g.r.enc...), ref.LE32(g.s)...), 0})
+		}
+		for _, a := range []*ent{honA, pickEnt(keys[0].A, "aB+T1")[0], pickEnt(keys[0].A, "T1")[0]} {
+			for _, va := range vars {
+				if !va.v.Ph {
+					mem = append(mem, memCase{a, va, honR.enc, mkSig(a, honR, va, honR.enc), 1})
+					mem = append(mem, memCase{a, va, a.enc, mkSig(a, honR, va, a.enc), 2})
+				} else {
+					sg := mkSig(a, honR, va, make([]byte, 64))
+					mem = append(mem, memCase{a, va, sg, sg, 3})
+				}
+			}
+		}
+	}
+	c.Par("caller-memory", len(mem), func(w *mc.W, i int) {
+		mcs := mem[i]
+		const g = 24
+		arena := make([]byte, g+32+g+len(mcs.m)+g+64+g+16)
+		for j := range arena {
+			arena[j] = 0xa5 ^ byte(j*7)
+		}
+		oPk, oM, oSig := g, g+32+g, g+32+g+len(mcs.m)+g
+		pk := arena[oPk : oPk+32]
+		copy(pk, mcs.a.enc)
+		sig := arena[oSig : oSig+64]
+		copy(sig, mcs.sig)
+		var m []byte
+		switch mcs.alias {
+		case 0:
+			m = arena[oM : oM+len(mcs.m)]
+			copy(m, mcs.m)
+		case 1:
+			m = sig[:32]
+		case 2:
+			m = pk
+		case 3:
+			m = sig[:64]
+		}
+		snap := append([]byte{}, arena...)
+		intact := func(after string) {
+			if !bytes.Equal(arena, snap) {
+				w.Fail("caller-memory/modified", fmt.Sprintf("caller buffer modified by %s (alias shape %d): before %x after %x", after, mcs.alias, snap, arena), nil)
+				copy(arena, snap)
+			}
+		}
+		f := refed.Analyse(mcs.a.enc, mcs.m, mcs.sig, mcs.va.v)
+		epk, err := ed.NewExpandedPublicKey(pk)
+		intact("NewExpandedPublicKey")
+		if (err == nil) != f.A.Decodes {
+			w.Fail("NewExpandedPublicKey/decodability", fmt.Sprintf("NewExpandedPublicKey(%x) err=%v but reference decodes=%v", pk, err, f.A.Decodes), nil)
+		}
+		if err != nil {
+			epk = nil
+		}
+		for _, o := range lite {
+			exp, why := f.Verdict(o.fl)
+			lo := &ed.Options{Hash: mcs.va.hash, Context: string(mcs.va.v.Context), Verify: o.vo}
+			w.EvalN("caller-memory/"+whyName(why), 2, f.LenOK && f.SInRange)
+			got, pan := call(func() bool { return ed.VerifyWithOptions(pk, m, sig, lo) })
+			intact("VerifyWithOptions")
+			k.cmp(w, "VerifyWithOptions(caller buffer)", got, pan, exp, why, mcs.a.enc, mcs.m, mcs.sig, mcs.va, o.fl)
+			if epk != nil {
+				got, pan = call(func() bool { return ed.VerifyExpandedWithOptions(epk, m, sig, lo) })
+				intact("VerifyExpandedWithOptions")
+				k.cmp(w, "VerifyExpandedWithOptions(caller buffer)", got, pan, exp, why, mcs.a.enc, mcs.m, mcs.sig, mcs.va, o.fl)
+			}
+			if o.fl == refed.PresetDefault || o.fl == refed.PresetStdLib {
+				// the same arguments through a batch (two entries: plain and expanded)
+				bv := ed.NewBatchVerifier()
+				bv.AddWithOptions(pk, m, sig, lo)
+				intact("BatchVerifier.AddWithOptions")
+				n := 1
+				if epk != nil {
+					bv.AddExpandedWithOptions(epk, m, sig, lo)
+					intact("BatchVerifier.AddExpandedWithOptions")
+					n = 2
+				}
+				all, each := bv.Verify(&constStream{b: byte(i)})
+				intact("BatchVerifier.Verify")
+				w.EvalN("caller-memory/batch/"+whyName(why), int64(n), f.LenOK && f.SInRange)
+				bad := all != exp || len(each) != n
+				for _, e := range each {
+					bad = bad || e != exp
+				}
+				if bad {
+					d, cas := k.describe(mcs.a.enc, mcs.m, mcs.sig, mcs.va, o.fl)
+					w.Fail("BatchVerifier.Verify(caller buffer)", fmt.Sprintf("batch of %d copies gives all=%v each=%v, predicate says %v (%s): %s", n, all, each, exp, why, d), cas)
+				}
+			}
+		}
+		// an expanded key must be independent of the buffer it was built from
+		if epk != nil {
+			for j := range pk {
+				pk[j] = 0
+			}
+			if cy := epk.CompressedY(); !bytes.Equal(cy[:], mcs.a.enc) {
+				w.Fail("ExpandedPublicKey/aliases-caller-memory", fmt.Sprintf("CompressedY()=%x after the caller overwrote its key buffer, want %x", cy[:], mcs.a.enc), nil)
+			}
+			if mcs.alias != 2 {
+				exp, why := f.Verdict(refed.PresetZIP215)
+				lo := &ed.Options{Hash: mcs.va.hash, Context: string(mcs.va.v.Context), Verify: ed.VerifyOptionsZIP_215}
+				got, pan := call(func() bool { return ed.VerifyExpandedWithOptions(epk, m, sig, lo) })
+				k.cmp(w, "VerifyExpandedWithOptions(after caller overwrote key buffer)", got, pan, exp, why, mcs.a.enc, mcs.m, mcs.sig, mcs.va, refed.PresetZIP215)
+			}
 		}
 	})
 
